@@ -42,6 +42,8 @@ type Engine struct {
 	Real  []string
 	Stubs []string
 	Rule  string // how runs are generated / what non-trivial means
+	// NoBubble: sequential engine (no goroutine scheduling, no fake clock).
+	NoBubble bool
 }
 
 type ReplayFile struct {
@@ -111,7 +113,7 @@ func fmtLog(l []LogEntry, max int) []string {
 		case 't':
 			out = append(out, fmt.Sprintf("%d t=%v run %s @%s", e.Step, e.Now, e.Who, e.Site))
 		case 'e':
-			out = append(out, fmt.Sprintf("%d t=%v event %s", e.Step, e.Now, e.Who))
+			out = append(out, fmt.Sprintf("%d t=%v event %s %s", e.Step, e.Now, e.Who, e.Site))
 		case 'z':
 			out = append(out, fmt.Sprintf("%d t=%v time+%s", e.Step, e.Now, e.Site))
 		default:
@@ -160,7 +162,11 @@ func Main(t *testing.T, e Engine) {
 		}
 		ResetSerials()
 		what.Store(fmt.Sprintf("%s seed=%d run=%d", e.Name, tape.Seed, tape.Run))
-		r := RunOne(t, bubble, tape, e.MaxSteps, logOn, &progress, e.Scenario)
+		b := bubble
+		if e.NoBubble {
+			b = nil
+		}
+		r := RunOne(t, b, tape, e.MaxSteps, logOn, &progress, e.Scenario)
 		progress.Add(1)
 		return r
 	}
